@@ -178,6 +178,15 @@ Definition effect_eth_redeem_burn (owner cur : N) (amount : Z) : option (list lo
   if 0 <=? amount then Some [Burn (bal owner cur) amount] else None.
 Definition effect_eth_redeem_refund (owner cur : N) (burnt : Z) : list lop := [Mint (bal owner cur) burnt].
 
+(* ---------------- OLVM (action/olvm, vm): what a transaction does to the native ledger at the transaction level ----------------
+   value: sender -> recipient / created contract (nothing when the execution reverts); gas: sender -> fee pool (price x gas used,
+   after refunds); NOTHING else - in particular a contract CREATION adds nothing to what the new address already held.  What the
+   executed code does with the contract's own balance (inner calls, SELFDESTRUCT) is C17's. *)
+Definition effect_olvm (sender target fp : N) (value : Z) (reverted : bool) (fee : Z) : option (list lop) :=
+  if (0 <=? value) && (0 <=? fee)
+  then Some ((if reverted then [] else [Move (bal sender CUR_OLT) (bal target CUR_OLT) value]) ++ [Move (bal sender CUR_OLT) (feepool fp) fee])
+  else None.
+
 (* a transaction = the handler's operations followed by the fee step *)
 Definition tx_ops (e : option (list lop)) (payer fp : N) (fee : Z) : option (list lop) :=
   match e with Some ops => Some (ops ++ fee_ops payer fp fee) | None => None end.
